@@ -845,6 +845,37 @@ func main() {
 			out.write(stepCase(id, "univ", in))
 		}
 		check(sc.Err())
+	case "univwalk":
+		// walk configurations enumerated by TLC (spec/MC_Walk.tla)
+		in, err := os.Open(os.Args[2])
+		check(err)
+		out := newOut(os.Args[3])
+		defer out.close()
+		sc := bufio.NewScanner(in)
+		sc.Buffer(make([]byte, 1<<20), 1<<26)
+		id := 0
+		for sc.Scan() {
+			var c struct {
+				Nodes map[string]map[string]interface{}
+				Bs    interface{}
+				Msgs  []interface{}
+				Limit int
+				Bps   []string
+			}
+			check(json.Unmarshal(sc.Bytes(), &c))
+			id++
+			a := &mach.ASpec{Nodes: map[string]*mach.ANode{}}
+			for name, n := range c.Nodes {
+				a.Nodes[name] = mach.DecNode(n)
+			}
+			var ms []interface{}
+			for _, m := range c.Msgs {
+				ms = append(ms, enc.D(m))
+			}
+			bs := enc.DBs(c.Bs)
+			out.write(walkCase(id, "walk", walkIn{a: a, node: "n0", bs: bs, msgs: ms, limit: c.Limit, bps: c.Bps, orig: copyBs(bs)}, true))
+		}
+		check(sc.Err())
 	case "replay":
 		js, err := os.ReadFile(os.Args[2])
 		check(err)
